@@ -259,3 +259,14 @@ __wrap_free (void *p)
     }
     __real_free (p);
 }
+
+int
+sim_alloc_contains (const void *p, size_t n)
+{
+    unsigned i;
+    for (i = 0; i < TAB_SIZE; i++)
+	if (tab[i].p && tab[i].p != TOMB &&
+	    (const char *)p >= (const char *)tab[i].p && (const char *)p + n <= (const char *)tab[i].p + tab[i].size)
+	    return 1;
+    return 0;
+}
